@@ -607,7 +607,9 @@ class SimNet:
 
     # connections ----------------------------------------------------------------
     def resolve(self, host):
-        return self.dns.get(host, host)
+        # DNS names are case-insensitive
+        h = host.lower() if isinstance(host, str) else host
+        return self.dns.get(h, h)
 
     def make_pair(self, caddr, saddr, policy_c2s, policy_s2c, cap_c2s=65536, cap_s2c=65536,
                   tag=None):
